@@ -471,7 +471,11 @@ func (w *world) genGov(hostile bool) *sysCall {
 			if !weighted {
 				c.Option = []uint32{0, 5, 7, 1 << 31, math.MaxUint32, 1<<31 + 1, 257, 65538, 1<<24 + 3}[w.pick(9)]
 			} else {
-				switch w.pick(7) {
+				switch w.pick(9) {
+				case 7, 8:
+					// exactly one option whose weight is not the whole vote
+					c.Opts = c.Opts[:1]
+					c.Opts[0].Weight = []uint64{30, 0, 250, 99, 101, 1}[w.pick(6)]
 				case 0:
 					c.Opts = nil
 				case 1:
